@@ -304,7 +304,7 @@ pub fn build_full(cfg: &CbCfg, inner: Shared, origin: tokio::time::Instant, nest
         } else {
             settings(start(cfg), cfg, &inner, origin, &log, &nest, &gate_s).failure_classifier(classify).build()
         };
-        let svc = layer.layer_fn(gi);
+        let svc = layer.clone().layer_fn(gi);
         if cfg.fallback {
             Box::new(svc.with_fallback(fb.clone()))
         } else {
@@ -312,7 +312,7 @@ pub fn build_full(cfg: &CbCfg, inner: Shared, origin: tokio::time::Instant, nest
         }
     } else {
         let layer = settings(start(cfg), cfg, &inner, origin, &log, &nest, &gate_s).build();
-        let svc = layer.layer_fn(gi);
+        let svc = layer.clone().layer_fn(gi);
         if cfg.fallback {
             Box::new(svc.with_fallback(fb))
         } else {
